@@ -3,6 +3,7 @@
    NOT proved here (tested by props/C17): that sm9_z256_pairing is bilinear, non-degenerate and of
    order N; the Frobenius maps as p-power maps; the G1/G2 point formulas; modn_mul / modn_inv. *)
 From Coq Require Import ZArith List.
+From GmVerif Require Import Base.Bytes Codec.Der Codec.DerProofs Sm9.Sm9Der.
 From GmVerif Require Import Sm9.Fermat Sm9.Tower Sm9.TowerProofs Sm9.TowerInv Sm9.C17Lemmas Sm9.ModN Sm9.ModNProofs Sm9.Sm9Scheme.
 Open Scope Z_scope.
 
@@ -199,3 +200,47 @@ Theorem C17_decrypt_decision : forall S : setting,
   m = xor (kem_decrypt (sG1 S) (sG2 S) (sGT S) (se S) Key KDF de C) c2.
 Proof. exact (fun S Key Bytes Tag KDF xor mac tag_eqb => decrypt_decision (sG1 S) (sG2 S) (sGT S) (se S) Key KDF Bytes Tag xor mac tag_eqb). Qed.
 Print Assumptions C17_decrypt_decision.
+
+(* ---- DER layer of the SM9 signature and ciphertext (Sm9/Sm9Der.v, on the primitives of Codec/Der.v).
+   [sig_decode] = sm9_signature_from_der + the leftover check of sm9_verify_finish;
+   [ct_decode] = sm9_ciphertext_from_der + the leftover check of sm9_decrypt + the 255-byte bound;
+   [point_ok] = the point decoder's verdict on the 65 octets (any predicate). *)
+Theorem C17_sig_der_roundtrip : forall (point_ok : list N -> bool) (h S : list N),
+  (Der.len h = 32 -> Der.len S = 65 -> Bytes.be_to_N h < sm9_N -> point_ok S = true ->
+   sig_decode point_ok (sig_to_der h S) = Der.Ok (h, S))%N.
+Proof. exact sig_roundtrip. Qed.
+Print Assumptions C17_sig_der_roundtrip.
+
+(* every accepted buffer is exactly the 104-byte canonical encoding of what was decoded: no
+   trailing bytes inside or outside the SEQUENCE, minimal lengths, right tags, unused-bits = 0 *)
+Theorem C17_sig_der_canonical : forall (point_ok : list N -> bool) (inp h S : list N),
+  (DerProofs.bytes_okP inp -> Der.len inp <= Der.INT_MAX ->
+   sig_decode point_ok inp = Der.Ok (h, S) -> inp = sig_to_der h S /\ Der.len inp = 104)%N.
+Proof. exact sig_canonical. Qed.
+Print Assumptions C17_sig_der_canonical.
+
+(* hence any extension or truncation of an accepted signature is refused *)
+Theorem C17_sig_der_length_strict : forall (point_ok : list N -> bool) (inp inp' h S : list N) v,
+  (DerProofs.bytes_okP inp -> DerProofs.bytes_okP inp' -> Der.len inp' <= Der.INT_MAX -> Der.len inp <= Der.INT_MAX ->
+   sig_decode point_ok inp = Der.Ok (h, S) -> Der.len inp' <> Der.len inp -> sig_decode point_ok inp' <> Der.Ok v)%N.
+Proof. exact sig_length_strict. Qed.
+Print Assumptions C17_sig_der_length_strict.
+
+Theorem C17_ct_der_roundtrip : forall (point_ok : list N -> bool) (C1 c3 c2 : list N),
+  (Der.len C1 = 65 -> Der.len c3 = 32 -> Der.len c2 <= 255 -> point_ok C1 = true ->
+   ct_decode point_ok (ct_to_der C1 c3 c2) = Der.Ok (C1, c3, c2))%N.
+Proof. exact ct_roundtrip. Qed.
+Print Assumptions C17_ct_der_roundtrip.
+
+Theorem C17_ct_der_canonical : forall (point_ok : list N -> bool) (inp C1 c3 c2 : list N),
+  (DerProofs.bytes_okP inp -> Der.len inp <= Der.INT_MAX ->
+   ct_decode point_ok inp = Der.Ok (C1, c3, c2) -> inp = ct_to_der C1 c3 c2 /\ Der.len c2 <= 255)%N.
+Proof. exact ct_canonical. Qed.
+Print Assumptions C17_ct_der_canonical.
+
+(* an accepted ciphertext followed by anything is refused (so is every proper prefix of an accepted one) *)
+Theorem C17_ct_der_extension_refused : forall (point_ok : list N -> bool) (inp x C1 c3 c2 : list N) v,
+  (DerProofs.bytes_okP (inp ++ x) -> Der.len (inp ++ x) <= Der.INT_MAX ->
+   ct_decode point_ok inp = Der.Ok (C1, c3, c2) -> x <> nil -> ct_decode point_ok (inp ++ x) <> Der.Ok v)%N.
+Proof. exact ct_extension_refused. Qed.
+Print Assumptions C17_ct_der_extension_refused.
